@@ -22,7 +22,8 @@ NA = {
 CHECKS = {
     "C07": dict(
         technique="flow-sensitive output-context taint analysis (text vs attribute-value context from the constant text around each "
-                  "interpolation; escape/quoteattr sanitisers; one-level wrapper inlining), tag-name agreement, constant folding of the re-declaration helper",
+                  "interpolation; escape/quoteattr sanitisers; one-level wrapper inlining), tag-name agreement, constant folding of the re-declaration "
+                  "helper (or of the expression it was folded into), def-use output coverage of every return path, long-lived-state / memo-key rule",
         text="Partial: the escaping discipline well-formedness depends on is decided for every interpolation of node data in both "
              "exporters, plus tag balance and the namespace re-declaration rule; parse-back equality needs a parser run and is not decided.",
         note="names/prefixes are XML-legal by the quantifier; EML-exporter pruning idioms (pre-escaped entities, inline para) are recognised by "
@@ -31,42 +32,48 @@ CHECKS = {
     "C08": dict(
         technique="provenance sets (which infoset item each stored expression derives from), raw-path identity, sibling agreement of the "
                   "text and tail policy blocks up to renaming, loop-shape rules, attribute-split guard evaluated on plain/Clark names, "
-                  "reserved-namespace constant, regex-AST check of the blank-only test",
+                  "reserved-namespace constant, regex-AST check of the blank-only test; the clean-mode policy compared in guarded-value form (path "
+                  "conditions x final symbolic value, control-flow shape abstracted); memo-key coverage on the import slice; parser-option whitelist",
         text="Partial and the thinnest claim: field provenance, raw identity, text/tail sibling agreement, child coverage/order, "
              "attribute split and the reserved xml: prefix are decided; lxml's parsing and the whitespace policy on all strings are not.",
         note="import-export-import stability is not decided",
         ref="DESIGN.md section 3, C08"),
     "C06": dict(
         technique="positional layout extraction (writer key sequence vs reader (index, key) pairs), field-coverage set comparison with "
-                  "value provenance to the restoring sink and guard dependence, constructor/setter sibling agreement, abstract execution of the upgrade's constant-index inserts",
+                  "value provenance to the restoring sink and guard dependence, constructor/setter sibling agreement, constructor-argument re-binding rule, "
+                  "abstract execution of the upgrade's constant-index inserts",
         text="Partial: writer/reader agreement slot by slot, coverage of every Node field (incl. one added later) with provenance, parent "
              "links on load and the upgrade's layout algebra are decided; byte identity and Unicode fidelity are the json library's.",
         note="namespace-map replay through add_namespace is covered structurally by C13",
         ref="DESIGN.md section 3, C06"),
     "C15": dict(
         technique="escape analysis with conditional callee summaries and membership facts, handler-coverage path check, record/remove/"
-                  "unregister pairing, effect summary bound, element-kind consistency of membership tests, live-iteration rule",
+                  "unregister pairing, effect summary bound, element-kind consistency of membership tests, live-iteration rule, must-marker dataflow "
+                  "'pruned below before judged' and guard-dependence of the strict validation",
         text="Partial: prune never raises (all paths, all callees), the sweep runs for every rule error, every removal is recorded and "
              "unregistered and nothing else is written; that the remainder is valid and idempotence are not decided.",
         note="distinct variables iterating a duplicate-free child list denote distinct nodes; D-TREE/D-REG provisos",
         ref="DESIGN.md section 3, C15"),
     "C16": dict(
         technique="may-dataflow of a WROTE marker against the failure points found by the escape analysis (validate-then-mutate incl. "
-                  "loop back edges), def-use/dominance check of the insertion index, copy provenance, loop-shape rules, guarded-entry discipline of the id register",
+                  "loop back edges), def-use/dominance check of the insertion index, copy provenance, loop-shape rules, guarded-entry and "
+                  "unconditional-entry discipline of the id register",
         text="Partial: atomic failure, in-place ordered insertion, copies-not-originals and complete cleanup are decided on all paths of "
              "expand; that the result validates is not.",
         note="independence of the copies is C12; only the documented ValueError may escape",
         ref="DESIGN.md section 3, C16"),
     "C19": dict(
         technique="escape analysis (nullable-use rule) through the dispatch table, table/tuple shape rules, declared-vs-emitted set "
-                  "comparison, threshold guards evaluated at t-1, t, t+1, descendant text collection, latched found-flags",
+                  "comparison, enum-alias check, threshold guards evaluated at t-1, t, t+1, descendant text collection, latched found-flags, "
+                  "no deep queries in evaluators, no long-lived state on the evaluation slice",
         text="Partial: totality on all paths of all evaluators, the shape of what is appended, completeness of the warning set and the "
              "three documented thresholds are decided; that the emitted set equals the recommendations on every tree is not.",
         note="word counting relies on normalize()/split (library semantics)",
         ref="DESIGN.md section 3, C19"),
     "C12": dict(
         technique="flow-sensitive may-aliasing domain over Node.copy (which container fields of the clone still alias the original's), "
-                  "freshness classification of re-binding expressions, marker dataflow for id re-binding / registration order, pairing rule for parent links",
+                  "freshness classification of re-binding expressions, marker dataflow for id re-binding / registration order, pairing rule for parent links, "
+                  "effect summaries of everything copy calls on the clone / child copies",
         text="Independence is decided on all paths of Node.copy (no container of the clone is the original's at return, child list holds "
              "only recursive copies); equality by field coverage of the shallow clone; registration after the id is re-bound.",
         note="uuid1 uniqueness and value equality of the (immutable) copied strings are not decided",
@@ -80,7 +87,8 @@ CHECKS = {
         ref="DESIGN.md section 3, C13"),
     "C14": dict(
         technique="marker dataflow (must-pass / must-follow) for register-on-create, discard=>unregister and unregister=>detached pairings; "
-                  "who-may-write / who-may-unregister by effect analysis; structure of delete_node_instance incl. live-iteration rule",
+                  "who-may-write / who-may-unregister by effect analysis; structure of delete_node_instance incl. live-iteration and unconditional-descent "
+                  "rules; no-orphan-registration rule over every library function that creates a node into a local",
         text="Partial: the registration/unregistration discipline is decided on all paths of the creating and discarding operations; "
              "id uniqueness (uuid1) is runtime and not decided.",
         note="documented discarders: prune, expand, replace_child; plain remove_child (caller keeps the node) is not a discard",
@@ -94,7 +102,8 @@ CHECKS = {
         ref="DESIGN.md section 3, C18"),
     "C09": dict(
         technique="marker dataflow for insertion/parent-link pairing on all paths, who-may-write scan, guard-fact bounds for every "
-                  "subscript in shift, swap/returned-index tracking domain, escape analysis, validate-then-mutate ordering, pre-order shape of the descendant queries",
+                  "subscript in shift, swap/returned-index tracking domain with an exchange-only rule, escape analysis, validate-then-mutate ordering, "
+                  "pre-order shape of the descendant queries, long-lived-state rule over Node's methods",
         text="Partial: the pairing of child list and parent link, shift's bounds/returned index/failure discipline and "
              "validate-then-mutate are decided on all paths of Node's mutators; equivalence with a list model over all "
              "histories and the query results are not.",
@@ -108,14 +117,16 @@ CHECKS = {
         ref="DESIGN.md section 3, C11"),
     "C03": dict(
         technique="layout-descriptor extraction and sibling agreement (validator vs introspection), constant folding of the helpers over "
-                  "every attribute spec, loop-shape check, guard chains evaluated over the complete per-attribute abstraction, escape analysis",
+                  "every attribute spec on the Rule object built by folding its constructor (with an alias check on the lists handed out), guard chains "
+                  "evaluated over the complete per-attribute abstraction with a reported-vs-required set comparison per abstract world, escape analysis",
         text="Partial: the wiring and the three guard predicates are decided over the abstraction the property names "
              "({absent, listed, unlisted} x {foreign}); the introspection helpers are folded over all 89 attribute specs.",
         note="guards are evaluated per attribute on a four-attribute abstract rule; independence of iterations follows from the loop shape",
         ref="DESIGN.md section 3, C03"),
     "C05": dict(
         technique="marker dataflow (dominance / must-pass) over all paths of validate.tree, loop-shape and iterable classification, "
-                  "constant and subject agreement across the three metadata tests, dominance of child dereferences by the non-metadata outcome, freshness / per-call reset discipline of the matcher object",
+                  "(recursive form and explicit-stack form: LIFO with reversed pushes), constant and subject agreement across the three metadata tests, "
+                  "dominance of child dereferences by the non-metadata outcome, freshness / per-call reset discipline of the matcher object, long-lived-state rule with memo-key coverage",
         text="Close to complete for how node verdicts are combined: the traversal is small enough that its shape is the property; "
              "per-node verdicts are C01-C04's subject.",
         note="order-preserving snapshot idioms recognised: direct, list(), tuple(), iter(), .copy(), [:], enumerate()",
@@ -131,7 +142,8 @@ CHECKS = {
     "C02": dict(
         technique="dispatch/table set comparison, arm-to-checker kind agreement by call-graph reachability of parse primitives, "
                   "escape analysis, abstract evaluation of reject conditions over {boundaries, +-inf, NaN} with constants "
-                  "propagated from the dispatch arm, checker guards over {none, empty, listed, unlisted} x {predicate holds, fails}",
+                  "propagated from the dispatch arm and three states of the error list, checker guards over {none, empty, listed, unlisted} x "
+                  "{predicate holds, fails}, use-classification of the value in the typed predicates (parser / type test / truth test only)",
         text="Partial: dispatch exhaustiveness, checker totality in both modes, error-code existence, and the range/NaN/infinity "
              "and mixed-content verdicts are decided; lexical acceptance of the Python/rfc3986 parsers is not.",
         note="a value is represented by the float it parses to; parser leniency is outside the claim (the property leaves it unspecified)",
